@@ -188,10 +188,10 @@ protected:
     //when try_lock fails, we need to register itself to waiting queue (_requests)
     bool subscribe(awaiter *aw) {
         //so subscribe to _requests
-        aw->subscribe(_requests);
-        //now check result of _next, which gives as hint, how lock operation ended
-        //if the _next is null, the lock was unlock
-        if (aw->_next== nullptr) [[likely]] {
+        //the previous top gives as hint, how lock operation ended
+        //(don't read aw->_next, the awaiter can be already resumed by the owner)
+        //if the previous top is null, the lock was unlock
+        if (aw->subscribe(_requests) == nullptr) [[likely]] {
             //because current awaiter will be destroyed, we need to replace self
             //with a doorman()
             //the function build_queue does this, even if there is no requests currentl
